@@ -12,6 +12,7 @@ import PgsVerif.Model.AstSem
 import PgsVerif.Model.AstSem2
 import PgsVerif.Model.Walk
 import PgsVerif.Model.Closure
+import PgsVerif.Model.Purity
 /-
   JSON glue: one `Engine` per correspondence.  Only decoding/encoding lives here; every function
   called is the very definition the theorems in `PgsVerif/Props` are about.
@@ -294,6 +295,16 @@ instance : FromJson WorldQ where
     pure ⟨w, qs.map fun (r, k) => (r, match k with | 0 => QKind.dependencies | 1 => .dependents | _ => .enumDependents)⟩
 def engineC05 : Engine :=
   mkEngine (I := WorldQ) (O := C05Obs) (fun i => c05Model i.w i.qs) (fun i => i.w.bidi) (fun i o => judgeC05 i.w i.qs o)
+structure WorldO where
+  w : World
+  ops : List (Ref × String)
+instance : FromJson WorldO where
+  fromJson? j := do
+    let w : World ← fromJson? j
+    let ops : List (Ref × String) ← j.getObjValAs? (List (Ref × String)) "ops"
+    pure ⟨w, ops⟩
+def engineC06 : Engine :=
+  mkEngine (I := WorldO) (O := C06Obs) (fun i => c06Model i.w i.ops) (fun i => i.w.bidi) (fun i o => judgeC06 i.w i.ops o)
 structure WalkJ where
   start : Ref
   mode : String                       -- "rec", "pass" (PassThroughVisitor) or "nil" (NilVisitor)
@@ -321,6 +332,6 @@ def engineC07 : Engine :=
 end AST
 
 def engines : List (String × Engine) :=
-  [ ("c11", C11.engine), ("fp", FP.engine), ("c15", C15.engine), ("c19", C19.engine), ("c20", C20.engine), ("c18", C18.engine), ("c10", Persist.engineC10), ("c12", Persist.engineC12), ("c11p", Persist.engineC10), ("c13", C13.engine), ("c14", C14.engine), ("c01", AST.engineC01), ("c02", AST.engineC02), ("c03", AST.engineC03), ("c04", AST.engineC04), ("c08", AST.engineC08), ("c09", AST.engineC09), ("c07", AST.engineC07), ("c05", AST.engineC05) ]
+  [ ("c11", C11.engine), ("fp", FP.engine), ("c15", C15.engine), ("c19", C19.engine), ("c20", C20.engine), ("c18", C18.engine), ("c10", Persist.engineC10), ("c12", Persist.engineC12), ("c11p", Persist.engineC10), ("c13", C13.engine), ("c14", C14.engine), ("c01", AST.engineC01), ("c02", AST.engineC02), ("c03", AST.engineC03), ("c04", AST.engineC04), ("c08", AST.engineC08), ("c09", AST.engineC09), ("c07", AST.engineC07), ("c05", AST.engineC05), ("c06", AST.engineC06) ]
 
 end Pgs
